@@ -75,7 +75,15 @@ int parse_ifdef_ignore(AsmContext *asm_context, int ignore_section)
 
     if (n == 2)
     {
-      if (asm_context->assemble() == -1) { return -1; }
+      n = asm_context->assemble();
+
+      if (n == -1) { return -1; }
+
+      if (n != 1)
+      {
+        print_error(asm_context, "Missing endif");
+        return -1;
+      }
     }
   }
     else
@@ -87,6 +95,13 @@ int parse_ifdef_ignore(AsmContext *asm_context, int ignore_section)
     if (n == 2)
     {
       if (ifdef_ignore(asm_context) == -1) { return -1; }
+    }
+      else
+    if (n != 1)
+    {
+      // The file ended (or a .endr showed up) inside the taken branch.
+      print_error(asm_context, "Missing endif");
+      return -1;
     }
   }
 
